@@ -165,8 +165,11 @@ def run_nested(acc, c):
 
 def run_shard(tier, k, n, acc):
     import itertools
-    for c in shard_iter(itertools.chain(all_cases(tier), nested_cases()), k, n, acc):
-        if c.get("kind") == "nested":
+    from . import c17
+    for c in shard_iter(itertools.chain(all_cases(tier), nested_cases(), c17.overlap_subset()), k, n, acc):
+        if c.get("kind") == "gather":
+            c17.run_gather(acc, c)  # two awaits of one AsyncDAG object overlap: each execution enters every node exactly once
+        elif c.get("kind") == "nested":
             run_nested(acc, c)
         else:
             run_case(acc, c, MONITORS, nontrivial)
@@ -174,6 +177,12 @@ def run_shard(tier, k, n, acc):
 
 def replay(v):
     c = v["case"]
+    if c.get("kind") == "gather":
+        from ..acc import Acc
+        from . import c17
+        a = Acc(ID, 0, 1, 600)
+        c17.run_gather(a, c, only_prefix=v["prefix"])
+        return a.violations, None
     if c.get("kind") == "nested":
         from .. import harness as H
         from .. import ir
